@@ -66,7 +66,24 @@ def place(r, valid, bad_lines, pos):
 
 
 def cells(run):
-    r = gen.rng_for(run.seed, "c20")
+    thorough = run.tier == "thorough"
+    if not thorough:
+        # quick: the whole matrix once, plus a second seeded rendering of the must-reject cells
+        first = cells_for(run, run.seed)
+        seen = {c.src for c in first}
+        return first + [c for c in cells_for(run, run.seed + 1000) if c.must and c.src not in seen]
+    # thorough: three seeded renderings of the whole matrix (other surrounding variants, positions and names), de-duplicated
+    out, seen = [], set()
+    for sub in (run.seed, run.seed + 1000, run.seed + 2000):
+        for c in cells_for(run, sub):
+            if c.src not in seen:
+                seen.add(c.src)
+                out.append(c)
+    return out
+
+
+def cells_for(run, seed):
+    r = gen.rng_for(seed, "c20")
     thorough = run.tier == "thorough"
     out = []
     positions = ["first", "middle", "last"]
@@ -267,12 +284,6 @@ def cells(run):
             if shape == "all-variants-disabled":
                 valid = ["    #[strum(disabled)]\n    A,", "    #[strum(disabled)]\n    B,"]
             add("R11-other-malformed", d, enum_item("E", d, attrs, valid), False, shape)
-    if not thorough:
-        # quick: all must-reject cells, a seeded third of the panic-only cells
-        out = [c for c in out if c.must or r.random() < 0.4]
-    else:
-        # thorough: two more seeded renderings of every must-reject cell (different surrounding variants are drawn on each call)
-        pass
     return out
 
 
